@@ -241,3 +241,96 @@ def minimise(events, fails_many):
         else:
             i = removable[0]
             cur = cur[:i] + cur[i + 1:]
+
+
+# ------------------------------------------------------------------ the property, evaluated on observed outcomes
+
+def canonical_has(can, a, n):
+    c = can["read"].get((a, n))
+    return "(OBool %s)" % ("true" if c and c[0] == "val" else "false")
+
+
+def c09_ok(ev, oc, can):
+    """C09 on one observation of the public table"""
+    k = ev[0]
+    if k == "read" and ev[1] == "pub":
+        return oc == "OSame"
+    if k == "has" and ev[1] == "pub":
+        return oc == canonical_has(can, ev[2], ev[3])
+    if k == "calc" and ev[2] == "pub":
+        return oc == "OSame"
+    if k == "import" or (k == "init" and ev[2] == "pub"):
+        return oc == "OOk"
+    return True
+
+
+def c09_violations(h, oc, can):
+    return [(i, "pub") for i, (e, o) in enumerate(zip(h, oc)) if not c09_ok(e, o, can)]
+
+
+def c10_violations(h, oc, can):
+    """indices of observations that contradict C10, with the table observed:
+    (a) every observation of the public table is canonical; (b) every read of a private table X, for a group X
+    was initialised with (init returned normally) and X has not itself assigned to / mutated, is canonical;
+    (c) parse / pickle stay inside the table"""
+    out = []
+    inited, touched = set(), set()      # (table, group)
+    for i, (e, o) in enumerate(zip(h, oc)):
+        k = e[0]
+        if k == "init" and e[2] != "pub" and o == "OOk":
+            inited.add((e[2], KEYS[e[1]]))
+        if k in ("set", "mut") and o == "OOk":
+            touched.add((e[1], GROUP_OF[e[3]]))
+        X = e[1] if k in ("read", "has") else (e[2] if k == "calc" else "pub")
+        if k == "read":
+            grp = GROUP_OF[e[3]]
+            claimed = X == "pub" or ((X, grp) in inited and (X, grp) not in touched)
+            if grp == "base" and X != "pub":
+                # mass.init ran when the table was created; density needs density.init as well
+                claimed = (e[3] == "mass" or any(h[j][0] == "init" and h[j][2] == X and h[j][1] == "density.init"
+                                                 and oc[j] == "OOk" for j in range(i))) and (X, "base") not in touched
+            if claimed and o != "OSame":
+                out.append((i, X))
+        elif k == "has" and X == "pub":
+            if o != canonical_has(can, e[2], e[3]):
+                out.append((i, X))
+        elif k == "calc" and X == "pub":
+            if o != "OSame":
+                out.append((i, X))
+        elif k == "import":
+            if o != "OOk":
+                out.append((i, "pub"))
+        elif k in ("parse", "pickle"):
+            if o != "(OBool true)":
+                out.append((i, e[1]))
+    return out
+
+
+def observe(h, can):
+    r = run_child(h)["out"]
+    return [classify(e, o, can) for e, o in zip(h, r)]
+
+
+WORDS = {"OSame": "the canonical value", "ODiff": "a different value (missing-data placeholder or foreign data)",
+         "OUser": "the table's own modification", "OOk": "no exception", "OImm": "an immutable value",
+         "(OBool true)": "True", "(OBool false)": "False"}
+
+
+def words(oc):
+    if oc.startswith("(OErr "):
+        return "raises " + {"AttrErr": "AttributeError", "TypeErr": "TypeError", "AssertErr": "AssertionError",
+                            "KeyErr": "KeyError", "RecursionErr": "RecursionError", "ValueErr": "ValueError"}.get(oc[6:-1], oc[6:-1])
+    return "gives " + WORDS.get(oc, oc)
+
+
+def prefer_read(m, table, violates_last):
+    """the same failure shown by a plain attribute read, when there is one (m[-1] is the failing observation)"""
+    if m[-1][0] == "read":
+        return m
+    grp = event_groups(m[-1])
+    cands = [m[:-1] + [["read", table, a, n]] for g in grp for n in GROUPS[g] for a in ("E1", "I11")]
+    res = violates_last(cands)
+    for c, r in zip(cands, res):
+        if r:
+            return c
+    return m
